@@ -292,12 +292,10 @@ func digestValue(h *uint64, v reflect.Value, depth int) {
 			mix(h, 3)
 		} else {
 			mix(h, 4)
-			if depth < 1 {
-				e := v.Elem()
-				k := e.Kind()
-				if k != reflect.Struct && k != reflect.Map && k != reflect.Slice && k != reflect.Interface {
-					digestValue(h, e, depth+1)
-				}
+			e := v.Elem()
+			k := e.Kind()
+			if k != reflect.Struct && k != reflect.Map && k != reflect.Slice && k != reflect.Interface && k != reflect.Ptr {
+				digestValue(h, e, depth+1) // pointed-to scalars (bounds, lengths) are stale content too
 			}
 		}
 	case reflect.Interface:
